@@ -477,6 +477,13 @@ def preExec (T : Table) (s : State) (b : Blk) : Option Err :=
   if !b.stateOk then some .checkStateHash else
   b.chkOk
 
+/-- `PreExecBlock(errReturn = false)`: what the node keeps of a body when it executes it as its
+OWN block on the tip — duplicates and transactions answering ExecErr are dropped (signatures are
+not looked at on this path: the mempool verified them). -/
+def produce (T : Table) (s : State) (b : Blk) : List Nat :=
+  ((delDup T b.txs).filter (fun t => !hasTx T s t)).filter
+    (fun t => checkTx s.hi s.lo (T t) b.height b.time)
+
 def ofTable (T : Table) : Params :=
   { key := fun t => (T t).hash, txh := fun t => txhOf (T t), exec := preExec T }
 
@@ -592,6 +599,21 @@ def handle (d : DState) (line : String) : DState × String :=
         ({ d with st := some s', started := true }, resStr r ++ " " ++ tipStr s')
       | none => (d, "bad-op")
     | _, _, _ => (d, "bad-op")
+  | ["produce", wid] =>
+    match d.st, wid.toNat? with
+    | some s, some wid =>
+      match findBlk d wid with
+      | some b =>
+        if wid == 0 then (d, "bad-op") else
+        let d := { d with started := true }
+        match tip? s with
+        | some t =>
+          if b.parent != t.id then (d, "n/a") else
+          let kept := produce (table d.txs) s b
+          (d, if kept.isEmpty then "kept=-" else "kept=" ++ ",".intercalate (kept.map toString))
+        | none => (d, "n/a")
+      | none => (d, "bad-op")
+    | _, _ => (d, "bad-op")
   | ["pool+", inst] =>
     match d.st, inst.toNat? with
     | some s, some i =>
